@@ -27,7 +27,21 @@ const FAILING: [&str; 14] = [
     "xs | [0] | abs(@) | nofn(@)",
 ];
 
-const PLAIN: [&str; 12] = [
+const PLAIN: [&str; 26] = [
+    "sum(`[1, 2]`)",
+    "sum(`[5, 5]`)",
+    "abs(`-1`)",
+    "abs(`-7`)",
+    "abs(`\"x\"`)",
+    "max(`[1, 9]`)",
+    "min(`[1, 9]`)",
+    "sort_by(recs, &k)[-1]",
+    "sort_by(recs, &k)[0]",
+    "sort(xs)[0]",
+    "sort(xs)[-1]",
+    "max_by(recs, &k)",
+    "@.a",
+    "!!!a",
     "@",
     "a",
     "a.b",
@@ -47,6 +61,7 @@ pub fn pool(seed: u64) -> (Vec<String>, Vec<Value>) {
     let mut docs = vec![
         json!({"a": {"b": 1}, "xs": [3, 1, 2], "recs": [{"id": 0, "k": 1}, {"id": 1, "k": 2}, {"id": 2, "k": 1}]}),
         json!({"a": 1, "xs": [1, "x", 2], "recs": [{"id": 0, "k": 1}, {"id": 1, "k": "a"}]}),
+        json!({"a": 0, "xs": [2, 2.0, 1, 1.0], "recs": [{"id": "ann", "k": 3}, {"id": "bob", "k": 7}, {"id": "cid", "k": 7}, {"id": "dan", "k": 3}]}),
         json!({"xs": [], "recs": []}),
         json!(null),
         json!([1, 2, 3]),
@@ -56,7 +71,7 @@ pub fn pool(seed: u64) -> (Vec<String>, Vec<Value>) {
         docs.push(gen_doc(&mut rng, 4));
     }
     let mut exprs: Vec<String> = FAILING.iter().chain(PLAIN.iter()).map(|s| s.to_string()).collect();
-    while exprs.len() < 40 {
+    while exprs.len() < 54 {
         let d = docs[rng.below(docs.len())].clone();
         let tree = TreeGen { rng: &mut rng, cfg: GenCfg { calls: true, depth: 2 } }.pipeline(&d, 2, 4);
         if let Ok(t) = Printer::new(&mut rng).emit(&tree) {
@@ -148,7 +163,9 @@ pub fn run(args: &Args) {
         let mut step_variation = 0u64;
         for _ in 0..ops_per_history {
             let op = rng.below(10);
-            if handles.is_empty() || op == 0 || (op == 1 && handles.len() < 60) {
+            let hot = h % 4 == 3;
+            let cap = if hot { 4 } else { 60 };
+            if handles.is_empty() || (op <= 1 && handles.len() < cap) {
                 let e = rng.below(exprs.len());
                 let custom = rng.chance(1, 4);
                 rep.evaluations += 1;
@@ -176,12 +193,15 @@ pub fn run(args: &Args) {
                 2 => {
                     let c = handles[hi].expr.clone();
                     let e = handles[hi].e;
-                    if handles.len() < 60 {
+                    if handles.len() < cap {
                         handles.push(Handle { expr: c, e, origin: "clone", uses: 0 });
                     }
                 }
                 3 => {
-                    handles.swap_remove(hi);
+                    // hot histories keep their handles alive for hundreds of searches
+                    if !hot || rng.chance(1, 40) {
+                        handles.swap_remove(hi);
+                    }
                 }
                 _ => {
                     let d = rng.below(docs.len());
@@ -205,6 +225,7 @@ pub fn run(args: &Args) {
                         );
                     } else {
                         rep.count(&format!("search_matches_single_shot/{}", handles[hi].origin));
+                        rep.max("max/uses_of_one_handle", handles[hi].uses as u64);
                         if handles[hi].uses > 1 || pred == 2 {
                             rep.nontrivial(fnv(format!("{}|{}|{}|{}", pool_seed, e, d, pred).as_bytes()));
                         }
